@@ -1,46 +1,46 @@
 (* C16 — property theorems about the error-reporting layer (statements only; every proof is
-   `exact <lemma>`).  Totality of the passes themselves is explored by the harness, not proved. *)
+   `exact <lemma>`).  Totality of the passes themselves is explored by the harness, not proved.
+   Theorems named old_* are about the functions as they were before the fix: commits
+   (ca2355e, f285438); they record how the findings F3 and F16 were derived. *)
 From Coq Require Import ZArith NArith List Bool String.
 Import ListNotations.
 Require Import EmbossV.Pipeline.Errors EmbossV.Pipeline.ProofsErrors.
 Open Scope N_scope.
 
-(* _Message.format: for every message whose file is known and whose location lies inside that
-   file's splitlines, format is defined, every message line starts with "file:line:column: ",
-   and a non-empty source line is shown with a caret line of column-1 blanks and >= 1 carets. *)
+(* _Message.format is a total function (its type); for every message whose file is known and whose
+   location lies inside that file's splitlines, every message line starts with
+   "file:line:column: ", and a non-empty source line is shown, followed by a caret line of
+   column-1 blanks and >= 1 carets. *)
 Theorem format_total : forall S m txt,
   lsyn (mloc m) = false -> lookup (mfile m) S = Some txt -> inside txt (mloc m) ->
-  exists line r,
+  exists line,
     nth_error (splitlines txt) (N.to_nat (pline (lstart (mloc m)) - 1)) = Some line /\
-    format S m = Some r /\ names_position m r /\ shows_line m line r.
+    names_position m (format S m) /\ shows_line m line (format S m).
 Proof. exact format_total_lem. Qed.
 
-(* no source text for the file, or a synthetic location: format never fails *)
-Theorem format_total_unknown_source : forall S m,
-  lsyn (mloc m) = true \/ lookup (mfile m) S = None -> exists r, format S m = Some r.
-Proof. exact format_total_unknown_lem. Qed.
+(* whatever the location, each message line carries file name and position text *)
+Theorem format_prefix : forall S m, names_position_any m (format S m).
+Proof. exact format_prefix_lem. Qed.
 
-(* exact characterisation of the IndexError in `source_lines[line - 1]` *)
-Theorem format_fails_iff : forall S m,
-  format S m = None <->
-  (lsyn (mloc m) = false /\ exists txt, lookup (mfile m) S = Some txt /\
-     ((N.to_nat (pline (lstart (mloc m))) > List.length (splitlines txt))%nat
-      \/ (pline (lstart (mloc m)) = 0 /\ splitlines txt = []))).
-Proof. exact format_fails_iff_lem. Qed.
+(* synthetic location, unknown file, or a location outside the file: the header lines only *)
+Theorem format_outside : forall S m,
+  (lsyn (mloc m) = true \/ lookup (mfile m) S = None \/
+   exists txt, lookup (mfile m) S = Some txt /\ ~ inside txt (mloc m)) ->
+  format S m = header m true false (splitlines (mtext m)).
+Proof. exact format_outside_lem. Qed.
 
 (* '[compiler bug]' is printed exactly for synthetic locations *)
-Theorem synthetic_marker : forall S m r l0 rest,
-  format S m = Some r -> splitlines (mtext m) = l0 :: rest ->
-  exists tail, r = (BOLD, source_name m ++ [58] ++ (if lsyn (mloc m) then s2l "[compiler bug]" else pos_str (lstart (mloc m))) ++ [58; 32]) :: tail.
+Theorem synthetic_marker : forall S m l0 rest,
+  splitlines (mtext m) = l0 :: rest ->
+  exists tail, format S m = (BOLD, source_name m ++ [58] ++ (if lsyn (mloc m) then s2l "[compiler bug]" else pos_str (lstart (mloc m))) ++ [58; 32]) :: tail.
 Proof. exact synthetic_marker_lem. Qed.
 
 Theorem format_errors_total : forall e S,
-  (forall g, In g e -> g <> []) ->
-  (forall g m, In g e -> In m g ->
-     lsyn (mloc m) = true \/ lookup (mfile m) S = None \/
-     exists txt, lookup (mfile m) S = Some txt /\ inside txt (mloc m)) ->
-  exists s, format_errors e S = Some s.
+  (forall g, In g e -> g <> []) -> exists s, format_errors e S = Some s.
 Proof. exact format_errors_total_lem. Qed.
+
+Theorem format_errors_fails_iff : forall e S, format_errors e S = None <-> In [] e.
+Proof. exact format_errors_fails_iff_lem. Qed.
 
 (* process_ir, for every list of passes (each an arbitrary function IR -> IR * errors):
    the result is (ir, []) or (None, non-empty) *)
@@ -74,33 +74,41 @@ Theorem pipeline_groups_nonempty : forall (IR : Type) (ps : list (str * pass IR)
   process_ir IR ps stop ir = PErr e -> groups_nonempty e.
 Proof. exact pipeline_groups_nonempty_lem. Qed.
 
-(* make_error_from_parse_error.  The full statement "defined for every parse error" is false of
-   the faithful model: the end-of-input token has no source_location/text (finding F3). *)
-Theorem parse_error_message_total_refuted :
-  exists np file e, make_error_from_parse_error np file e = None.
-Proof. exact parse_error_message_total_refuted_lem. Qed.
-
-Theorem parse_error_message_total_partial : forall np file e,
-  pe_token e <> EndOfInput ->
-  exists m, make_error_from_parse_error np file e = Some [m] /\ mfile m = file /\ msev m = SError /\
-            exists sym tx l, pe_token e = Tok sym tx l /\ mloc m = location_or_default l /\
-                             mtext m = parse_error_text np (pe_code e) tx sym (pe_expected e).
-Proof. exact parse_error_message_total_partial_lem. Qed.
-
+(* make_error_from_parse_error is defined exactly on parser_types.Token objects ... *)
 Theorem parse_error_defined_iff : forall np file e,
-  (exists g, make_error_from_parse_error np file e = Some g) <-> pe_token e <> EndOfInput.
+  (exists g, make_error_from_parse_error np file e = Some g) <-> is_tok (pe_token e) = true.
 Proof. exact parse_error_defined_iff_lem. Qed.
 
-(* tokenizer errors ("Unrecognized token", "Bad indentation") always lie inside the file and render,
+(* ... and lr1.Parser.parse reports a Token at every cursor position, the end of input included *)
+Theorem parse_error_message_total : forall np file tokens cursor code expected,
+  forallb is_tok tokens = true -> (cursor <= List.length tokens)%nat ->
+  exists t m, error_token end_marker tokens cursor = Some t /\
+              make_error_from_parse_error np file (mkPE code t expected) = Some [m] /\
+              mfile m = file /\ msev m = SError /\ mloc m = location_or_default (tok_loc t).
+Proof. exact parse_error_message_total_lem. Qed.
+
+Theorem old_parse_error_message_refuted :
+  exists np file tokens cursor code expected t,
+    forallb is_tok tokens = true /\ (cursor <= List.length tokens)%nat /\
+    error_token end_marker_old tokens cursor = Some t /\
+    make_error_from_parse_error np file (mkPE code t expected) = None.
+Proof. exact old_parse_error_message_refuted_lem. Qed.
+
+Theorem end_marker_location : forall tokens sym tx l,
+  last (map Some tokens) None = Some (Tok sym tx (Some l)) -> loc_truthy l = true ->
+  end_marker tokens = Tok [36] [] (Some (mkLoc (lend l) (lend l) false)).
+Proof. exact end_marker_location_lem. Qed.
+
+(* tokenizer errors ("Unrecognized token", "Bad indentation") always lie inside the file,
    for every per-line tokenizer *)
 Theorem tokenizer_error_inside : forall file line_toks text e,
   tokenize file line_toks text = TErr e ->
-  exists m, e = [[m]] /\ mfile m = file /\ lsyn (mloc m) = false /\ inside text (mloc m) /\
-            exists r, format [(file, text)] m = Some r.
+  exists m, e = [[m]] /\ mfile m = file /\ msev m = SError /\ lsyn (mloc m) = false /\ inside text (mloc m) /\
+            1 <= pcol (lstart (mloc m)).
 Proof. exact tokenizer_error_inside_lem. Qed.
 
 (* "every token lies inside the file" holds except for the end-of-file Dedents ... *)
-Theorem token_positions_partial : forall file line_toks text ts,
+Theorem dedent_position_partial : forall file line_toks text ts,
   (forall ln L ts c, line_toks ln L = LToks ts c -> Forall (on_line ln) ts) ->
   tokenize file line_toks text = TOk ts ->
   Forall (fun t => (exists l, tok_loc t = Some l /\ lsyn l = false /\ inside text l)
@@ -108,16 +116,39 @@ Theorem token_positions_partial : forall file line_toks text ts,
 Proof. exact token_positions_lem. Qed.
 
 (* ... which sit at (last_line + 1, 1), outside the file (finding F16): a syntax error reported on
-   such a token cannot be rendered against the file's own text *)
+   such a token names a position that is not in the file *)
 Theorem dedent_position_refuted :
-  exists file line_toks text ts t l g,
+  exists file line_toks text ts t l m,
     tokenize file line_toks text = TOk ts /\ In t ts /\ tok_loc t = Some l /\
-    insideb text l = false /\
-    make_error_from_parse_error [] file (mkPE None t [s2l "Indent"]) = Some g /\
-    format_errors [g] [(file, text)] = None.
+    make_error_from_parse_error [] file (mkPE None t [s2l "Indent"]) = Some [m] /\
+    mfile m = file /\ lsyn (mloc m) = false /\ insideb text (mloc m) = false.
 Proof. exact dedent_position_refuted_lem. Qed.
 
 Theorem final_dedent_outside : forall text,
   ~ inside text (mkLoc (mkPos (N.of_nat (List.length (splitlines text)) + 1) 1)
                        (mkPos (N.of_nat (List.length (splitlines text)) + 1) 1) false).
 Proof. exact final_dedent_outside_lem. Qed.
+
+Theorem end_marker_after_dedent : forall ts n,
+  end_marker (ts ++ [dedent_tok (n + 1) 1]) = Tok [36] [] (Some (mkLoc (mkPos (n + 1) 1) (mkPos (n + 1) 1) false)).
+Proof. exact end_marker_after_dedent_lem. Qed.
+
+(* before f285438: exact characterisation of the IndexError in `source_lines[line - 1]`, and the
+   crash on the end-of-file Dedent position *)
+Theorem old_format_fails_iff : forall S m,
+  format_old S m = None <->
+  (lsyn (mloc m) = false /\ exists txt, lookup (mfile m) S = Some txt /\
+     ((N.to_nat (pline (lstart (mloc m))) > List.length (splitlines txt))%nat
+      \/ (pline (lstart (mloc m)) = 0 /\ splitlines txt = []))).
+Proof. exact old_format_fails_iff_lem. Qed.
+
+Theorem old_dedent_format_crash :
+  exists file text m, lookup file [(file, text)] = Some text /\ insideb text (mloc m) = false /\
+                      format_errors_old [[m]] [(file, text)] = None /\
+                      exists s, format_errors [[m]] [(file, text)] = Some s.
+Proof. exact old_dedent_format_crash_lem. Qed.
+
+Theorem format_old_agrees : forall S m txt,
+  lsyn (mloc m) = false -> lookup (mfile m) S = Some txt -> inside txt (mloc m) ->
+  format_old S m = Some (format S m).
+Proof. exact format_old_agrees_lem. Qed.
